@@ -4,7 +4,7 @@ from ..fmtdecode import format_pieces
 from ..paths import PathEnum
 from ..tables import enum_const_table
 from .fields import field_writers, mut_borrow_consumers
-from .util import writer_roots, is_call, look, norm, option_is_some, transforms, last_seg, truth
+from .util import writer_roots, is_call, look, norm, option_is_some, transforms, last_seg, truth, payload_of
 from ..symstr import symstr
 
 EXPLANATION = (
@@ -113,6 +113,36 @@ def _lv(ctx, name):
     return fn, [l for l in lv if l.kind == "return"]
 
 
+def _is_abs_path_of_request(t):
+    t = look(t)
+    return is_call(t, "request::Uri::get_abs_path") and is_call(look(t[2][0]), "request::Request::uri") and look(look(t[2][0])[2][0]) == ("arg", 2)
+
+
+def _prefix_absent(lf):
+    """the path established that request.uri().get_abs_path() does not start with self.prefix (strip_prefix -> None / starts_with false)"""
+    from .util import option_test, truth
+    for (t, c, _b) in lf.conds:
+        if option_test(t, c, lambda y: is_call(y, "strip_prefix") and _is_abs_path_of_request(y[2][0]) and self_field(y[2][1], "prefix")) == "none":
+            return True
+        x = look(t)
+        if is_call(x, "starts_with") and _is_abs_path_of_request(x[2][0]) and self_field(x[2][1], "prefix") and truth(c) is False:
+            return True
+    return False
+
+
+def _rejoin_prefix(ps):
+    """P ++ (S.strip_prefix(P) payload) is S: the pieces of a key that strips the prefix only to prepend it again."""
+    out = []
+    for p in ps:
+        if out and p[0] == "sym" and out[-1][0] == "sym":
+            src = payload_of(look(p[1]))
+            if src is not None and is_call(src, "strip_prefix") and len(src[2]) == 2 and norm(look(src[2][1])) == norm(look(out[-1][1])):
+                out[-1] = ("sym", look(src[2][0]))
+                continue
+        out.append(p)
+    return out
+
+
 def keys(ctx):
     facts = ctx.facts
     fa, la = _lv(ctx, "router::HttpRoutes::<T>::add_route")
@@ -141,11 +171,15 @@ def keys(ctx):
     m = 0
     for lf in lh:
         ev = _routes_calls(lf, ("get", "get_mut", "contains_key", "entry", "remove", "get_key_value"))
+        if not ev and _prefix_absent(lf):
+            # the request path does not start with the prefix every registered key carries: a miss without consulting the table
+            ctx.ob("R17.1", "lookup|prefix-absent|bb%d" % lf.bb, True, "a path that does not start with self.prefix cannot match a registered key (every key is method ':' prefix path): no lookup needed", fh.loc(lf.bb))
+            continue
         ctx.ob("R17.1", "lookup|get|bb%d" % lf.bb, len(ev) == 1 and last_seg(ev[0][3]) == "get", "one HashMap::get on self.routes per path", fh.loc(lf.bb))
         for e in ev:
             m += 1
             try:
-                ps = symstr(e[4][2][1], lf)
+                ps = _rejoin_prefix(symstr(e[4][2][1], lf))
             except AnalysisError as ex:
                 ctx.fail("R17.1", "lookup|key|cannot-evaluate", "lookup key cannot be evaluated: %s" % ex, fh.loc(e[1]))
                 continue
@@ -196,6 +230,8 @@ def dispatch(ctx):
             if t[0] == "discr" and is_call(look(t[1]), "get") and "HashMap" in look(t[1])[1]:
                 some = option_is_some(c)
                 got = look(t[1])
+        if some is None and _prefix_absent(lf):
+            some = False        # a path that lacks the prefix of every registered key: a miss established without the table
         seen.add(some)
         handler_calls = [e for e in lf.events if e[0] == "call" and last_seg(e[3]) == "handle_request"]
         other_dyn = [e for e in lf.events if e[0] == "call" and e[3] == "<fnptr>"]
